@@ -450,7 +450,7 @@ Lemma resp_self s t th e s' th' gt st :
   (e = ETick \/ exists i, e = ECbTick i) ->
   get_thread s' t = Some th' ->
   festat s = st -> cqs s' = cqs s ->
-  (forall c, main th <> SigDeq c ASUnlock) ->
+  (e = ETick -> forall c, main th <> SigDeq c ASUnlock) ->
   (forall i c unl, nth_error (cbs th) i = Some (CbEnq (QC c) unl) -> e <> ECbTick i) ->
   resp_th s st t gt th -> resp_th s' st t gt th'.
 Proof.
@@ -464,7 +464,7 @@ Proof.
   { intros E c unl Hin. apply nenq_in in Hin. unfold nenq in E. lia. }
   inversion R; subst; clear R; try (destruct He as [He|[i0 He]]; discriminate He).
   all: try (rewrite get_same in G by (gts; congruence); inv G).
-  all: try (exfalso; eapply Hns; eassumption).
+  all: try (exfalso; eapply (Hns eq_refl); eassumption).
   all: try (match goal with Hr0 : resp_th _ _ _ _ ?x, Hm : main ?x = _ |- _ => resp_go Hr0 Hm end; fail).
   - (* cas2_ok *)
     destruct Hfree as [F1 F2]; [rewrite H; reflexivity|].
@@ -554,6 +554,22 @@ Proof.
     + right. dsj; pc_inj; try discriminate; eauto 8.
 Qed.
 
+Lemma hand_exclusive s t th x :
+  Inv2 s -> get_thread s t = Some th -> (1 <= th_hand th x)%nat ->
+  cqcount s x = O /\ ENQ s x = O.
+Proof.
+  intros I Hth Hx. pose proof (i2_sl _ I x) as E. pose proof (SUSP_le1 s x). pose proof (hands_ge s t th x Hth).
+  unfold occ in E. lia.
+Qed.
+
+Lemma ghost_exists g x thx : GRel g -> get_thread (base g) x = Some thx -> exists gx, nth_error (gth g) x = Some gx.
+Proof.
+  intros GR G. destruct (nth_error (gth g) x) eqn:E; [eauto|]. exfalso.
+  apply nth_error_None in E. rewrite (gr_len _ GR) in E.
+  assert (nth_error (thr (base g)) x <> None) by (unfold get_thread in G; congruence).
+  apply nth_error_Some in H. lia.
+Qed.
+
 Lemma Tok_base_step g t e s' gt th :
   Inv (base g) -> GRel g -> Tok g ->
   nth_error (gth g) t = Some gt -> get_thread (base g) t = Some th ->
@@ -579,9 +595,72 @@ Proof.
   destruct (valid_st_idx _ Hv) as [Hlt Hidx].
   inversion R; subst; try (destruct He as [He|[i0 He]]; discriminate He).
   (* steps that leave status and condition queues alone *)
-  all: try (apply Hgen; [gts; exact Hf|gts; exact Hq|];
+  all: try (apply Hgen; [gts; reflexivity|gts; exact Hq|];
             intros z gz thz -> Gz Bz Cz; rewrite Hgt in Gz; inv Gz; rewrite Hth in Bz; inv Bz;
             eapply (resp_self _ _ _ _ _ _ _ _ I Hth Hg R He Hth'); gts; auto;
-            [intros c0 Hc0; congruence|intros i0 c0 u0 Hc0 E0; discriminate E0]; fail).
-  Show.
-Abort.
+            [intros _ c0 Hc0; congruence|intros i0 c0 u0 Hc0 E0; discriminate E0]; fail).
+  - (* unl *)
+    match goal with U : urel _ _ _ _ _ _ _ |- _ =>
+      pose proof (urel_festat _ _ _ _ _ _ _ U) as Uf; pose proof (urel_cqs _ _ _ _ _ _ _ U) as Uq end.
+    gts. rewrite Uq, ?Uf in *.
+    apply Hgen; [reflexivity|exact Hq|].
+    intros z gz thz -> Gz Bz Cz; rewrite Hgt in Gz; inv Gz; rewrite Hth in Bz; inv Bz.
+    eapply (resp_self _ _ _ _ _ _ _ _ I Hth Hg R He Hth'); gts; auto;
+      [intros _ c0 Hc0; congruence|intros i0 c0 u0 Hc0 E0; discriminate E0].
+  - (* sigdeq_empty: the writer found the queue of its own status empty *)
+    exfalso. gts. apply Hq.
+    match goal with Hm : main th = SigDeq ?c ASUnlock, Q : getq _ _ = [] |- _ =>
+      pose proof (i3_sig _ (inv_3 _ I) _ _ _ Hth Hm) as E; rewrite E, Nat2Z.id; exact Q end.
+  - (* sigdeq: the dequeued waiter becomes responsible *)
+    match goal with Hm : main th = SigDeq ?c ASUnlock, Q : getq _ _ = _ :: _ |- _ =>
+      pose proof (i3_sig _ (inv_3 _ I) _ _ _ Hth Hm) as E; cbn [getq] in Q;
+      assert (Hin : In x (nth c (cqs s) [])) by (rewrite Q; left; reflexivity);
+      rename Hm into Hm0 end.
+    destruct (i2_q _ (inv_2 _ I) _ _ Hin) as (thx & Gx & Mx).
+    assert (Hxt : x <> t) by (intros ->; congruence).
+    destruct (ghost_exists _ _ _ GR Gx) as [gx Hgx].
+    exists x, gx, thx. cbn. split; [exact Hgx|]. split; [rewrite get_other by exact Hxt; gts; exact Gx|].
+    left. gts. rewrite E. split; [left; unfold lock_pc; auto|]. intros _.
+    assert (I' : Inv (set_thread (setq s (QC c) r) t (set_main th (SigPush c ASUnlock x)))) by (eapply Inv_step; eauto).
+    destruct (hand_exclusive _ t _ x (inv_2 _ I') Hth') as [C1 C2].
+    { rewrite get_same in Hth' by (gts; congruence). inv Hth'. unfold th_hand. cbn. rewrite Nat.eqb_refl. cbn. lia. }
+    intros [C|(c0 & u0 & C)]; [lia|].
+    unfold ENQ in C2. rewrite get_other in C2 by exact Hxt. gts. rewrite Gx in C2.
+    apply nenq_in in C. unfold nenq in C2. lia.
+  - (* fewrite *)
+    exists t, gt, th'. cbn. split; [exact Hgt|split; [exact Hth'|]].
+    rewrite get_same in Hth' by (gts; congruence). inv Hth'.
+    right; right; right. gts.
+    match goal with Hm : main th = FeWrite _ |- _ =>
+      grel_cases gt; rewrite ?Hm in Hg; dsj; pc_inj; try discriminate; cbn; eauto 10 end.
+  - (* cbenq *)
+    destruct q as [|c].
+    + apply Hgen; [gts; reflexivity|gts; exact Hq|].
+      intros z gz thz -> Gz Bz Cz; rewrite Hgt in Gz; inv Gz; rewrite Hth in Bz; inv Bz.
+      eapply (resp_self _ _ _ _ _ _ _ _ I Hth Hg R He Hth'); gts; auto.
+      * intros E0; discriminate E0.
+      * intros i0 c0 u0 Hc0 E0. inv E0. congruence.
+    + match goal with Hc : nth_error (cbs th) _ = Some (CbEnq (QC c) _) |- _ =>
+        pose proof (nth_error_In _ _ Hc) as Hin;
+        pose proof (i3_enq _ (inv_3 _ I) _ _ _ _ Hth Hin) as Hne;
+        pose proof (i2_enq _ (inv_2 _ I) _ _ _ _ Hth Hin) as Hsusp end.
+      gts. cbn [getq] in Hq.
+      assert (Hcc : c <> Z.to_nat (festat s)).
+      { intros ->. apply Hne. symmetry. exact Hidx. }
+      rewrite nth_upd_other in Hq by exact Hcc.
+      apply Hgen; [reflexivity|exact Hq|].
+      intros z gz thz -> Gz Bz Cz; rewrite Hgt in Gz; inv Gz; rewrite Hth in Bz; inv Bz.
+      rewrite get_same in Hth' by (gts; congruence). inv Hth'.
+      unfold resp_th, onway, lock_pc in Cz |- *. rewrite Hsusp in Cz. gts. rewrite Hsusp.
+      dsj; pc_inj; try discriminate; try (right; right; left; auto; fail).
+      all: exfalso; apply Hne; congruence.
+  - (* cbunl *)
+    match goal with U : urel _ _ _ _ _ _ _ |- _ =>
+      pose proof (urel_festat _ _ _ _ _ _ _ U) as Uf; pose proof (urel_cqs _ _ _ _ _ _ _ U) as Uq end.
+    gts. rewrite Uq, ?Uf in *.
+    apply Hgen; [reflexivity|exact Hq|].
+    intros z gz thz -> Gz Bz Cz; rewrite Hgt in Gz; inv Gz; rewrite Hth in Bz; inv Bz.
+    eapply (resp_self _ _ _ _ _ _ _ _ I Hth Hg R He Hth'); gts; auto.
+    + intros E0; discriminate E0.
+    + intros i0 c0 u0 Hc0 E0. inv E0. congruence.
+Qed.
